@@ -132,6 +132,16 @@ CLAIMED = {
              'and JSON text validity are oracle-only.',
         technique='Coq proof (induction over fuel/loops/pre-token trees; BFS level characterisation) + extracted-model correspondence + independent object-graph walker',
         design='5/C12'),
+    'C11': dict(
+        text='PARTIAL. Theorem for ALL histories of (non-nested) sessions whose bodies may render, add custom tokens or end in an exception: afterwards the active '
+             'block and span token sets are exactly the defaults (model of the list bookkeeping; constructor effects regenerated from the live classes). That no '
+             'scratch state leaks from one parse into the next is an assumption built into the parser model (a pure function of configuration and text), not a '
+             'theorem; it is decided on the implementation: systematic histories (a parse raising inside a custom block/span token at every list position and call '
+             'count under R1, then every probe under R2, then a bare Document) and random histories, comparing every output, the token lists and the '
+             'read-before-written class attributes with a fresh interpreter, and HTML outputs with the model.',
+        note='Trusted: Coq kernel, History model, fresh-interpreter references, probe set. Nested contexts are outside the quantifier. Two fix: commits (_code_matches, parse_setext).',
+        technique='Coq proof (fold over histories) for the token lists + history oracle against fresh interpreters and the stateless model',
+        design='5/C11'),
 }
 
 NOT_YET = {}
